@@ -13,7 +13,7 @@ import ast
 
 from sa.linear import Lin
 from sa.pyfacts import attr_chain, call_name, norm
-from sa.q import Fn, flatten_cond, inside, raise_class, raise_kw
+from sa.q import natom, Fn, flatten_cond, inside, raise_class, raise_kw
 from sa.report import AnalysisError
 
 from . import tlsfacts as T
@@ -73,13 +73,13 @@ def run(repo, chk):
         chk.ob("R1", "_check_certificate_verify_signature: InvalidSignature is converted to an alert, never swallowed", ok, "an except clause around verify() does not re-raise", f.loc(c))
         # verify must lie on every normal path
         chk.ob("R1", "_check_certificate_verify_signature: verify() on every normal path", f.cfg.postdominates(f.cfg.node_of(c), f.cfg.entry), "a normal return bypasses the signature verification", f.loc(c))
-    algo = [r for r in f.raises() if Fn.find_guards(f.guard_atoms_x(r), "not in", True, ["verify.algorithm", "self._signature_algorithms"])]
+    algo = [r for r in f.raises() if natom("verify.algorithm not in self._signature_algorithms") in f.lexical_guards(r, expand=False) and all(r.lineno < c.lineno for c in ver)]
     chk.ob("R1", "_check_certificate_verify_signature: unadvertised signature algorithm raises", bool(algo), "no raise guarded by `verify.algorithm not in self._signature_algorithms`", f.loc(f.node))
 
     # ---- R1: verify_certificate ------------------------------------------------------
     vc = Fn(repo, "tls:verify_certificate")
     for frag, what in ((["not_valid_before"], "not-yet-valid date check"), (["not_valid_after"], "expiry date check")):
-        rs = [r for r in vc.raises() if any(all(x in a[0] for x in frag) and a[1] for a in vc.guard_atoms_x(r))]
+        rs = [r for r in vc.raises() if any(all(x in a[0] for x in frag) and a[1] for a in vc.lexical_guards(r))]
         chk.ob("R1", f"verify_certificate: {what} raises", bool(rs), "date comparison no longer guards a raise", vc.loc(vc.node))
     sv = vc.calls(suffix="verify_certificate")
     sv = [c for c in sv if call_name(c) != "verify_certificate"]
@@ -101,6 +101,12 @@ def run(repo, chk):
                 src |= vc.closure_chains(anc.iter)
         peer = {"chain", "certificate"} & src
         chk.ob("R1", f"verify_certificate: `{norm(c)[:60]}` adds only locally configured CAs to the trust store", not peer and ("cadata" in src), f"trust store receives data depending on {sorted(src)}", vc.loc(c))
+    # the public default roots are consulted only when the application configured no CA at all
+    defaults = [c for c in vc.calls(suffix="load_locations") if any(isinstance(a, ast.Call) and call_name(a) == "certifi.where" for a in c.args)]
+    for c in defaults:
+        lg = set(vc.lexical_guards(c, expand=False))
+        want = {("cadata is None", True), ("cafile is None", True), ("capath is None", True)}
+        chk.ob("R1", "verify_certificate: the certifi default roots are loaded only when cadata, cafile and capath are all unset", lg == want, f"guards {sorted(lg)}: a connection configured with its own CA would also trust every public root", vc.loc(c))
     ctxs = vc.calls(suffix="X509StoreContext")
     chk.ob("R1", "verify_certificate: X509StoreContext constructed", bool(ctxs), "store context vanished", vc.loc(vc.node))
     for c in ctxs:
@@ -146,7 +152,7 @@ def run(repo, chk):
     # the comparison's failure raises the decrypt alert
     for fname in ("_client_handle_finished", "_server_handle_finished"):
         fn = Fn(repo, T.CTX + fname)
-        rs = [r for r in fn.raises("AlertDecryptError") if Fn.find_guards(fn.guard_atoms_x(r), "!=", True, ["pull_finished(", ".verify_data"])]
+        rs = [r for r in fn.raises("AlertDecryptError") if Fn.find_guards(fn.lexical_guards(r), "!=", True, ["pull_finished(", ".verify_data"])]
         chk.ob("R1", f"{fname}: Finished mismatch raises AlertDecryptError", bool(rs), "no raise guarded by the verify_data comparison", fn.loc(fn.node))
 
     # the skip-certificate shortcut: transition graph and the writers of _session_resumed (shared with C11)
@@ -257,7 +263,7 @@ def run(repo, chk):
     loops = [st for st in ng.stmts(lambda s: isinstance(s, ast.For))]
     good = good and any(norm(st.iter) == "supported" for st in loops)
     chk.ob("R4", "negotiate returns only elements of supported that are in offered", good, "a return value is not guarded by membership in both lists", ng.loc(ng.node))
-    rz = [r for r in ng.raises() if Fn.find_guards(ng.guard_atoms(r), "is not", True, ["exc", "None"])]
+    rz = [r for r in ng.raises() if Fn.find_guards(ng.lexical_guards(r, expand=False), "is not", True, ["exc", "None"])]
     chk.ob("R4", "negotiate raises the supplied alert when nothing matches", bool(rz), "raise exc vanished", ng.loc(ng.node))
     sh = Fn(repo, T.CTX + "_server_handle_hello")
     mand = {"peer_hello.cipher_suites": "cipher suite", "peer_hello.legacy_compression_methods": "compression", "peer_hello.signature_algorithms": "signature algorithm", "peer_hello.supported_versions": "TLS version", "peer_hello.alpn_protocols": "ALPN"}
@@ -271,7 +277,7 @@ def run(repo, chk):
     chk.ob("R4", "_server_handle_hello: all mandatory options are negotiated", found == set(mand), f"missing negotiate() for {sorted(set(mand) - found)}", sh.loc(sh.node))
     ch = Fn(repo, T.CTX + "_client_handle_hello")
     for frag, what in (("compression_method", "compression method"), ("supported_version", "TLS version")):
-        rs = [r for r in ch.raises() if Fn.find_guards(ch.guard_atoms_x(r), "not in", True, [frag])]
+        rs = [r for r in ch.raises() if Fn.find_guards(ch.lexical_guards(r), "not in", True, [frag])]
         chk.ob("R4", f"_client_handle_hello: unadvertised {what} raises", bool(rs), "membership test no longer guards a raise", ch.loc(ch.node))
     ok = any(call_name(c) == "negotiate" and len(c.args) >= 3 and "cipher_suite" in norm(c.args[1]) for c in ch.calls())
     chk.ob("R4", "_client_handle_hello: server cipher suite must be one we offered", ok, "negotiate(self._cipher_suites, [peer_hello.cipher_suite], alert) vanished", ch.loc(ch.node))
